@@ -440,3 +440,17 @@ void bad_grow_first__lsh(bn_t c, const bn_t a, int digits) {
 	dv_lshd(c->dp, a->dp, c->used, digits);
 	bn_trim(c);
 }
+
+/* SHIFT-WIDEN, second clause: the mask that selects a bit of a digit is built in 32 bits */
+int ok_shift_mask(dig_t b, int i) {
+	return (b & ((dig_t)1 << i)) != 0;
+}
+
+int bad_shift_widen__mask(dig_t b, int i) {
+	return (b & (1 << i)) != 0;
+}
+
+int bad_shift_widen__mask_var(const dig_t k[], int j, int i) {
+	const unsigned int mask = 1u << i;
+	return (k[j] & mask) != 0;
+}
